@@ -1288,6 +1288,10 @@ sse_rule_convssslw (OrcCompiler *p, void *user, OrcInstruction *insn)
   const int src = p->vars[insn->src_args[0]].alloc;
   const int dest = p->vars[insn->dest_args[0]].alloc;
 
+  /* the low half of the result is packed from dest */
+  if (src != dest) {
+    orc_sse_emit_movdqa (p, src, dest);
+  }
   orc_sse_emit_packssdw (p, src, dest);
 }
 
@@ -1298,6 +1302,10 @@ sse_rule_convsuslw (OrcCompiler *p, void *user, OrcInstruction *insn)
   const int src = p->vars[insn->src_args[0]].alloc;
   const int dest = p->vars[insn->dest_args[0]].alloc;
 
+  /* the low half of the result is packed from dest */
+  if (src != dest) {
+    orc_sse_emit_movdqa (p, src, dest);
+  }
   orc_sse_emit_packusdw (p, src, dest);
 }
 #endif
@@ -1311,6 +1319,9 @@ sse_rule_convslq (OrcCompiler *p, void *user, OrcInstruction *insn)
 
   orc_sse_emit_movdqa (p, src, tmp);
   orc_sse_emit_psrad_imm (p, 31, tmp);
+  if (src != dest) {
+    orc_sse_emit_movdqa (p, src, dest);
+  }
   orc_sse_emit_punpckldq (p, tmp, dest);
 }
 
@@ -1889,13 +1900,12 @@ sse_rule_select1ql (OrcCompiler *p, void *user, OrcInstruction *insn)
   const int src = p->vars[insn->src_args[0]].alloc;
   const int dest = p->vars[insn->dest_args[0]].alloc;
 
-  /* values of dest are shifted away so don't matter */
-
+  if (src != dest) {
+    orc_sse_emit_movdqa (p, src, dest);
+  }
   orc_sse_emit_psrlq_imm (p, 32, dest);
 #ifndef MMX
-  orc_sse_emit_pshufd (p, ORC_SSE_SHUF(2,0,2,0), src, dest);
-#else
-  orc_sse_emit_movdqa (p, src, dest);
+  orc_sse_emit_pshufd (p, ORC_SSE_SHUF(2,0,2,0), dest, dest);
 #endif
 }
 
